@@ -64,7 +64,7 @@ static void lfail(const char* fmt, ...) {
 }
 
 static var P(int s) {
-  long i = s < MAXA ? s : 20 + (s - MAXA);
+  long i = s < MAXA ? 2 * s : 20 + (s - MAXA);   /* every other stride: a residue -1 object must not touch its neighbour */
   long r = s < MAXA ? residue[s] : 3 + 7 * (s - MAXA);
   return arena_base + 8 * (r + (long)MODW * i);
 }
@@ -73,7 +73,7 @@ static int slot_of(var p) {
   long off = (char*)p - arena_base;
   if (off < 0 || (off & 7)) return -1;
   long w = off >> 3, i = w / MODW, r = w % MODW;
-  if (i < MAXA) return residue[i] == r ? (int)i : -1;
+  if (i < 2 * MAXA) return (i % 2 == 0 && residue[i / 2] == r) ? (int)(i / 2) : -1;
   long k = i - 20;
   if (k < 0 || k >= NSPARE) return -1;
   return r == 3 + 7 * k ? (int)(MAXA + k) : -1;
@@ -711,6 +711,129 @@ static void own_graphs(void) {
   }
 }
 
+/* ---- teardown at thread exit and at program exit ------------------------------------------------------------------
+** Programs: every sequence of length <= depth over {new, new kept in a local, new_root ... del_root, owner+owned pair,
+** del of the kept object, churn until the collector ran}, executed (a) as the function of a fresh Cello Thread - the
+** thread's collector is torn down by the library when the function returns - and (b) in a forked process whose main
+** thread registered Cello_Exit with atexit exactly as the `main` wrapper does, followed by exit(): a destructor-priority
+** hook that runs after all atexit handlers reports the ledger through a pipe.  After teardown every managed object must
+** have been finalised exactly once and released exactly once. */
+
+static int exit_prog[8], exit_len;
+static int exit_pipe = -1;
+static int in_exit_child;
+
+static var exit_body(var args) {
+  volatile var kept = NULL;
+  int next = 0;     /* arena slots are handed out in order */
+  for (int i = 0; i < exit_len; i++) {
+    if (next >= NSLOT - 2 && exit_prog[i] != 4) continue;   /* arena exhausted: the rest of the program allocates nothing */
+    switch (exit_prog[i]) {
+    case 0: alloc_at = next; S[next].kind = K_STD; S[next].child = -1; new(Cell); next++; break;                 /* garbage at once */
+    case 1: alloc_at = next; S[next].kind = K_STD; S[next].child = -1; kept = new(Cell); next++; break;          /* held in a local */
+    case 2: { alloc_at = next; S[next].kind = K_ROOT; S[next].child = -1; var r = new_root(Cell); int s = next++; S[s].deleted = 1; del_root(r); break; }
+    case 3: { alloc_at = next; S[next].kind = K_STD; S[next].child = -1; struct Cell* o = new(Cell); int so = next++;
+              alloc_at = next; S[next].kind = K_STD; S[next].child = -1; var c = new(Cell); int sc = next++;
+              o->child = c; o->owner = 1; S[so].child = sc; S[so].owner = 1; break; }
+    case 4: if (kept) { int s = slot_of((var)kept); if (s >= 0 && !S[s].fin) { S[s].deleted = 1; del((var)kept); } kept = NULL; } break;
+    case 5: for (int k = 0; k < 30 && next < NSLOT - 2; k++) { alloc_at = next; S[next].kind = K_STD; S[next].child = -1; new(Cell); next++; } break;
+    }
+    alloc_at = -1;
+  }
+  kept = NULL;
+  return NULL;
+}
+
+static int exit_judge(const char* where) {
+  if (ledger_err[0]) { vf_violation(L("ledger"), NULL, "%s: %s", where, ledger_err); ledger_err[0] = 0; return 1; }
+  for (int s = 0; s < NSLOT; s++) {
+    if (S[s].kind == K_NONE) continue;
+    if (S[s].fin != 1 || S[s].dealloc != 1) {
+      vf_violation(L(S[s].fin == 0 ? "left-behind" : "finalised-or-released-more-than-once"), NULL, "%s: object #%d (%s) was finalised %d times and released %d times", where, s,
+        S[s].kind == K_ROOT ? "root, deleted explicitly" : S[s].deleted ? "deleted explicitly or by its owner" : "never deleted", S[s].fin, S[s].dealloc);
+      return 1;
+    }
+  }
+  return 0;
+}
+
+__attribute__((destructor)) static void exit_hook(void) {
+  if (!in_exit_child || exit_pipe < 0) return;
+  /* runs after every atexit handler, i.e. after Cello_Exit tore the main thread's collector down */
+  char buf[NSLOT * 3 + 8]; int o = 0;
+  for (int s = 0; s < 64; s++) { buf[o++] = (char)('0' + S[s].kind); buf[o++] = (char)('0' + (S[s].fin > 9 ? 9 : S[s].fin)); buf[o++] = (char)('0' + (S[s].dealloc > 9 ? 9 : S[s].dealloc)); }
+  buf[o++] = ledger_err[0] ? 'E' : 'k';
+  (void)!write(exit_pipe, buf, (size_t)o);
+}
+
+static void exit_modes(void) {
+  vf.phase = "gc-exit";
+  int depth = (int)vf_param_i("depth", 4);
+  const int NOPS = 6;
+  /* cells here live at consecutive, non-colliding arena slots: use the spare region layout for all of them */
+  A = MAXA;
+  uint64_t total = 0, p = 1; for (int i = 0; i < depth; i++) { p *= NOPS; total += p; }
+  int r_where = -1; unsigned long long r_idx = 0;
+  int replaying = vf.replay && sscanf(vf.replay, "exit where=%d idx=%llu", &r_where, &r_idx) == 2;
+  for (int where = 0; where < 2; where++) {
+    for (uint64_t idx = 0; idx < total; idx++) {
+      if (replaying && (where != r_where || idx != r_idx)) continue;
+      /* decode */
+      uint64_t x = idx, count = NOPS; int len = 1;
+      while (x >= count) { x -= count; count *= NOPS; len++; }
+      exit_len = len; for (int i = len - 1; i >= 0; i--) { exit_prog[i] = (int)(x % NOPS); x /= NOPS; }
+      char ps[64]; size_t o = 0; static const char* on[] = { "new", "kept=new", "new_root;del_root", "owner+owned", "del(kept)", "churn30" };
+      for (int i = 0; i < len; i++) o += snprintf(ps + o, sizeof ps - o, "%s%d", i ? "," : "", exit_prog[i]);
+      vf_set_cur("exit where=%d idx=%" PRIu64 " | %s: program [%s]", where, idx, where == 0 ? "worker thread exit" : "main thread, atexit(Cello_Exit), exit()", ps);
+      if ((idx & 63) == 0) vf_watchdog(120);
+      memset(S, 0, sizeof S); for (int s = 0; s < NSLOT; s++) S[s].child = -1;
+      ledger_err[0] = 0; alloc_at = -1; exec_bad = 0;
+      if (where == 0) {
+        lastkind = "thread-exit";
+        /* the main thread needs a collector of its own while the worker runs */
+        gc = new_raw(GC, $R(stack_bottom));
+        var fobj = $(Function, exit_body);
+        var th = new_raw(Thread, fobj);
+        var e = VF_CATCH(call(th); join(th));
+        if (e) vf_violation(L("raises"), NULL, "thread raised %s", vf_exc_name(e));
+        else exit_judge("after the thread was joined");
+        del_raw(th);
+        del_raw(gc); gc = NULL;
+      } else {
+        lastkind = "program-exit";
+        int fds[2]; if (pipe(fds)) { perror("pipe"); _exit(2); }
+        fflush(NULL);
+        pid_t pid = fork();
+        if (pid == 0) {
+          close(fds[0]); exit_pipe = fds[1]; in_exit_child = 1;
+          signal(SIGSEGV, SIG_DFL); signal(SIGABRT, SIG_DFL); signal(SIGALRM, SIG_DFL); alarm(20);
+          var bottom = NULL;
+          new_raw(GC, $R(&bottom));
+          /* atexit(Cello_Exit) was already registered by this program's own `main` wrapper (Cello.h) */
+          exit_body(NULL);
+          exit(0);
+        }
+        close(fds[1]);
+        char buf[NSLOT * 3 + 8]; ssize_t got = 0, r;
+        while ((r = read(fds[0], buf + got, sizeof buf - (size_t)got)) > 0) got += r;
+        close(fds[0]);
+        int st = 0; waitpid(pid, &st, 0);
+        if (!WIFEXITED(st) || WEXITSTATUS(st) != 0) vf_violation(L(WIFSIGNALED(st) ? "crash-during-exit" : "exit-status"), NULL, "program died during exit handling (status %d signal %d)", WIFEXITED(st) ? WEXITSTATUS(st) : -1, WIFSIGNALED(st) ? WTERMSIG(st) : 0);
+        else if (got < 64 * 3 + 1) vf_violation(L("no-report"), NULL, "exit hook did not report");
+        else {
+          for (int s = 0; s < 64; s++) { S[s].kind = buf[3 * s] - '0'; S[s].fin = buf[3 * s + 1] - '0'; S[s].dealloc = buf[3 * s + 2] - '0'; }
+          if (buf[64 * 3] == 'E') vf_violation(L("ledger"), NULL, "ledger error in the exiting program (finalised twice / released without finalising)");
+          else exit_judge("after exit()");
+        }
+      }
+      vf.executions++; vf.transitions++; vf.states++;
+      int nt = 0; for (int i = 0; i < len; i++) if (exit_prog[i] == 3 || exit_prog[i] == 5) nt = 1;
+      if (nt) vf.nontrivial++;
+      if (vf_want_sample()) vf_sample("%s", vf_cur);
+    }
+  }
+}
+
 int main(int argc, char** argv) {
   vf_init(argc, argv);
   var bottom_marker = NULL;
@@ -732,6 +855,7 @@ int main(int argc, char** argv) {
 
   if (vf_param_is("mode", "ladder", "bfs")) { ladder(); vf_finish(); }
   if (vf_param_is("mode", "own", "bfs")) { own_graphs(); vf_finish(); }
+  if (vf_param_is("mode", "exit", "bfs")) { exit_modes(); vf_finish(); }
 
   static char dname[64];
   snprintf(dname, sizeof dname, "gc[%d addresses,%s]", A, propC06 ? "C06" : "C17");
